@@ -38,41 +38,67 @@ static void body(void *arg) {
 /* private buffers: one contiguous slab per thread slot (one private region per thread), reused across harnesses */
 #define SLOT_BYTES (16384 + 16384 + 256 * 8 + C17_OBS_MAX)
 static uint8_t *SLAB[VS_MAXT];
-static void ensure_ctx(int t, int k) {
+/* large operations (12000-value inputs) run only as operation 0 of threads 0..2 and get a larger private slab */
+#define LSLOT_BYTES (3 * C17_LARGE_BYTES + C17_OBS_MAX)
+static uint8_t *LSLAB[3];
+static int is_large(int oi) { return oi >= C17_NOPS; }
+static void ensure_ctx(int t, int k, int large) {
     if (!SLAB[t]) {
         SLAB[t] = malloc((size_t)SLOT_BYTES * MAXOPS_PER_THREAD);
     }
     c17_ctx *c = &TS[t].ctx[k];
+    if (large) {
+        if (t >= 3 || k != 0) {
+            fprintf(stderr, "large operation outside thread 0..2 / position 0\n");
+            exit(3);
+        }
+        if (!LSLAB[t]) {
+            LSLAB[t] = malloc(LSLOT_BYTES);
+        }
+        uint8_t *b = LSLAB[t];
+        c->enc = b;
+        c->enc2 = b + C17_LARGE_BYTES;
+        c->dec = (uint64_t *)(b + 2 * C17_LARGE_BYTES);
+        c->obs = b + 3 * C17_LARGE_BYTES;
+        return;
+    }
     uint8_t *b = SLAB[t] + (size_t)k * SLOT_BYTES;
     c->enc = b;
     c->enc2 = b + 16384;
     c->dec = (uint64_t *)(b + 32768);
     c->obs = b + 32768 + 256 * 8;
 }
+static void add_regions(int tid, int t) {
+    vs_add_private(tid, SLAB[t], (size_t)SLOT_BYTES * MAXOPS_PER_THREAD);
+    if (t < 3 && LSLAB[t]) {
+        vs_add_private(tid, LSLAB[t], LSLOT_BYTES);
+    }
+    vs_add_private(tid, &TS[t], sizeof TS[t]);
+}
 static void setup(int nthr, int nops_each, int ops[][MAXOPS_PER_THREAD]) {
     NTHR = nthr;
     vs_reset_regions();
-    for (int i = 0; i < 3; i++) {
-        vs_add_shared_ro(C17_IN[i], sizeof C17_IN[i]);
+    for (int i = 0; i < C17_NIN; i++) {
+        vs_add_shared_ro(C17_IN[i], C17_INBYTES[i]);
     }
     for (int t = 0; t < nthr; t++) {
         TS[t].nops = nops_each;
         for (int k = 0; k < nops_each; k++) {
-            ensure_ctx(t, k);
             int oi = ops[t][k];
+            ensure_ctx(t, k, is_large(oi));
             TS[t].ops[k] = oi;
             c17_ctx *c = &TS[t].ctx[k];
             c->in = C17_IN[C17_OPS[oi].input];
             c->n = C17_INN[C17_OPS[oi].input];
             c->arg = C17_OPS[oi].arg;
-            memset(c->enc, 0xE1, 16384);
-            memset(c->enc2, 0xE2, 16384);
-            memset(c->dec, 0xE3, 256 * 8);
+            size_t sb = is_large(oi) ? C17_LARGE_BYTES : 16384, db = is_large(oi) ? C17_LARGE_BYTES : 256 * 8;
+            memset(c->enc, 0xE1, sb);
+            memset(c->enc2, 0xE2, sb);
+            memset(c->dec, 0xE3, db);
             memset(c->obs, 0, C17_OBS_MAX);
             c->obs_len = 0;
         }
-        vs_add_private(t, SLAB[t], (size_t)SLOT_BYTES * MAXOPS_PER_THREAD);
-        vs_add_private(t, &TS[t], sizeof TS[t]);
+        add_regions(t, t);
     }
 }
 
@@ -399,11 +425,10 @@ static void run_harness(int nthr, int nops_each, int ops[][MAXOPS_PER_THREAD], i
         void *a[1] = {&TS[t]};
         /* solo: tid 0 is used by the scheduler; private regions of slot t must be attributed to tid 0 */
         vs_reset_regions();
-        for (int i = 0; i < 3; i++) {
-            vs_add_shared_ro(C17_IN[i], sizeof C17_IN[i]);
+        for (int i = 0; i < C17_NIN; i++) {
+            vs_add_shared_ro(C17_IN[i], C17_INBYTES[i]);
         }
-        vs_add_private(0, SLAB[t], (size_t)SLOT_BYTES * MAXOPS_PER_THREAD);
-        vs_add_private(0, &TS[t], sizeof TS[t]);
+        add_regions(0, t);
         const vs_exec *x = vs_run(1, b, a, NULL, 0);
         n_exec++;
         n_events += x->nevents[0];
@@ -462,6 +487,7 @@ int main(int argc, char **argv) {
     }
     vh_init(argc, argv);
     vs_init();
+    c17_init_inputs();
     int max_bound = vh_thorough ? 2 : 1;
     static int ops[VS_MAXT][MAXOPS_PER_THREAD];
     int complete = 1;
@@ -524,6 +550,52 @@ int main(int argc, char **argv) {
             }
         }
         vh_class("triples_all", "a fifth of all unordered triples of %d operations", C17_NOPS);
+    }
+    /* (d) large inputs (12000 values: above the library's 4096 / 8192 / 10000 size thresholds): every unordered pair of
+     * large operations (quick: same codec or same input or neighbours in the table), and thorough: every large
+     * operation against every fifth small one */
+    if (vh_section_begin("large")) {
+        int lcomplete = 1;
+        for (int i = C17_NOPS; i < C17_NALL && lcomplete; i++) {
+            for (int j = i; j < C17_NALL; j++) {
+                int same_codec = C17_OPS[i].arg == C17_OPS[j].arg, same_input = C17_OPS[i].input == C17_OPS[j].input;
+                if (!vh_thorough && !(same_codec || (same_input && (j - i) <= 9))) {
+                    continue;
+                }
+                if (!vh_case()) {
+                    continue;
+                }
+                if (vh_deadline_hit()) {
+                    lcomplete = 0;
+                    break;
+                }
+                ops[0][0] = i;
+                ops[1][0] = j;
+                snprintf(HNAME, sizeof HNAME, "threads {%s, %s}", C17_OPS[i].name, C17_OPS[j].name);
+                run_harness(2, 1, ops, 1, 200);
+            }
+            char ck[96];
+            snprintf(ck, sizeof ck, "large/%s", C17_OPS[i].name);
+            vh_class(ck, "x large operations j >= i");
+        }
+        if (vh_thorough) {
+            for (int i = C17_NOPS; i < C17_NALL && lcomplete; i++) {
+                for (int j = (i % 5); j < C17_NOPS; j += 5) {
+                    if (!vh_case()) {
+                        continue;
+                    }
+                    if (vh_deadline_hit()) {
+                        lcomplete = 0;
+                        break;
+                    }
+                    ops[0][0] = i;
+                    ops[1][0] = j;
+                    snprintf(HNAME, sizeof HNAME, "threads {%s, %s[input %d]}", C17_OPS[i].name, C17_OPS[j].name, C17_OPS[j].input);
+                    run_harness(2, 1, ops, 1, 200);
+                }
+            }
+        }
+        vh_flag("all_large_pairs", lcomplete);
     }
     /* (b) 16 threads, each running every operation, each thread a different rotation of the list */
     if (vh_section_begin("sixteen") && vh_case()) {
